@@ -5,6 +5,7 @@ from analysis import terms as T, k2
 from analysis.cfg import cfg_of
 from analysis.effects import subterms
 
+THOROUGH_CONFIGS = ['release', 'nobmi2', 'engine-alone']
 LEVEL = "other"
 DECIDED = ("R1 size_hint() = (len(), Some(len())) and count() = len(); R2 the promotion multiplier in len() equals the number of promotion pieces iterated (4, a permutation of the four "
            "PromotionPiece variants); R3 is_empty, len and next stop on the same criterion, `(entry.moves & self.mask) == empty` of the entry at the cursor; R4 in the workspace every "
